@@ -480,10 +480,10 @@ func runC12Binary(c *fw.Ctx, r *fw.Rng, kind, idx int, res *fw.Result) fw.Result
 		}
 		return append(append([]string{}, args...), "-t", fmt.Sprint(t))
 	}
-	base := fw.RunBin(bin, withT(1), stdin, env(0, 0), "", 120*time.Second)
+	base := fw.RunBin(bin, withT(1), stdin, env(0, 0), "", 40*time.Second)
 	res.Evals++
 	if base.TimedOut {
-		res.Inconclusive = append(res.Inconclusive, "binary watchdog fired on the baseline")
+		binHang(res, base, name+" (baseline)", files, withT(1))
 		return *res
 	}
 	if base.Exit != 0 {
@@ -513,20 +513,20 @@ func runC12Binary(c *fw.Ctx, r *fw.Rng, kind, idx int, res *fw.Result) fw.Result
 			// stdout is a one-page pipe drained slowly: the bytes that arrive must not depend on
 			// how fast the destination takes them
 			if cpus > 0 {
-				br = fw.RunBinSlowPipe("taskset", append([]string{"-c", fmt.Sprintf("0-%d", cpus-1), bin}, withT(t)...), stdin, env(p, j), "", 120*time.Second)
+				br = fw.RunBinSlowPipe("taskset", append([]string{"-c", fmt.Sprintf("0-%d", cpus-1), bin}, withT(t)...), stdin, env(p, j), "", 40*time.Second)
 				res.Count("binary_executions_with_restricted_cpus", 1)
 			} else {
-				br = fw.RunBinSlowPipe(bin, withT(t), stdin, env(p, j), "", 120*time.Second)
+				br = fw.RunBinSlowPipe(bin, withT(t), stdin, env(p, j), "", 40*time.Second)
 			}
 			res.Count("binary_executions_into_slow_pipe", 1)
 		} else if cpus > 0 {
 			if r.Chance(0.5) {
 				p = 0 // GOMAXPROCS left to default to the visible processors
 			}
-			br = fw.RunBin("taskset", append([]string{"-c", fmt.Sprintf("0-%d", cpus-1), bin}, withT(t)...), stdin, env(p, j), "", 120*time.Second)
+			br = fw.RunBin("taskset", append([]string{"-c", fmt.Sprintf("0-%d", cpus-1), bin}, withT(t)...), stdin, env(p, j), "", 40*time.Second)
 			res.Count("binary_executions_with_restricted_cpus", 1)
 		} else {
-			br = fw.RunBin(bin, withT(t), stdin, env(p, j), "", 120*time.Second)
+			br = fw.RunBin(bin, withT(t), stdin, env(p, j), "", 40*time.Second)
 		}
 		res.Evals++
 		res.Count("binary_executions@"+name, 1)
@@ -548,8 +548,8 @@ func runC12Binary(c *fw.Ctx, r *fw.Rng, kind, idx int, res *fw.Result) fw.Result
 		}
 		argv := append([]string{fmt.Sprintf("GOMAXPROCS=%d", p), fmt.Sprintf("VERIF_JITTER_SEED=%d", j), fmt.Sprintf("cpus(taskset)=%d", cpus)}, withT(t)...)
 		if br.TimedOut {
-			res.Inconclusive = append(res.Inconclusive, "binary watchdog fired")
-			continue
+			binHang(res, br, name, files, argv)
+			break
 		}
 		if br.Exit != 0 {
 			f := cloneFiles(files)
